@@ -29,7 +29,10 @@ def respell(rng, lex, kinds):
     while i < n:
         x = lex[i]
         k = x[0]
-        if k == '_' or k == 'nl':
+        if k == 'g0':
+            if 'trivia' in kinds and rng.random() < 0.5:
+                out.append(''.join(rng.choice(TRIVIA) for _ in range(rng.choice([1, 1, 2]))))
+        elif k == '_' or k == 'nl':
             if 'trivia' in kinds:
                 t = ''.join(rng.choice(TRIVIA) for _ in range(rng.choice([1, 1, 2])))
                 out.append(t)
